@@ -343,6 +343,12 @@ func (m *Machine) storeElem(p *ElemPtrV, v Val) {
 			if s2, ok := v.(*SeqV); ok && typeKey(s2.Elem) == key {
 				return m.havocSeqContent(s2)
 			}
+			// pointers into such a slice read the havocked contents from now on, too
+			if ep, ok := v.(*ElemPtrV); ok {
+				if s2, ok := ep.Seq.(*SeqV); ok && typeKey(s2.Elem) == key {
+					return &ElemPtrV{Seq: m.havocSeqContent(s2), Idx: ep.Idx, Path: ep.Path, Owner: ep.Owner}
+				}
+			}
 			return v
 		}
 		for c, hvv := range m.Heap {
